@@ -135,11 +135,22 @@ theorem multi_engine_process_then_execute_yields_direct_rows (σ : Leaves) (reg 
     (hwf : t.WF) (htr : t.Truthful σ) (hkd : keyDetermined σ t = true) (hreg : t.RegOK σ reg)
     (hb : t.markersBelow tempBase) (hs : StoreOK σ reg st) (hfree : t.sqFree sq)
     (hfresh : ∀ o, tempBase ≤ o → sq.payload o = none) (hfreshSt : ∀ o, tempBase ≤ o → st.payload o = none)
-    (hac : t.Acyclic) (hf : t.size ≤ defaultFuel)
+    (hac : t.Acyclic) (hpos : ∀ o, o ∈ t.matOids → 0 < o) (hf : t.size ≤ defaultFuel)
     (res : Res) (ps : ProcState) (h : processTop σ st sq t = (.ok res, ps)) :
     (res.get t).engine = t.engine ∧ (∀ u, u ∈ (res.get t).columns ↔ u ∈ t.columns) ∧
       ∃ it s', exec σ (res.get t).engine (res.get t) ps.st = .ok (it, s') ∧ it.rows σ = .ok (sem σ t) :=
-  process_multi_then_execute σ reg t st sq h0 hm hsql hwf htr hkd hreg hb hs hfree hfresh hfreshSt hac hf res ps h
+  process_multi_then_execute σ reg t st sq h0 hm hsql hwf htr hkd hreg hb hs hfree hfresh hfreshSt hac hpos hf res ps h
+
+/-- **Any number of repeated `process()` calls on the same tree** (each starting in the state the previous one left,
+`ProcRuns`): every call returns a tree with the engine and columns of the input that executes to exactly the rows of
+the direct evaluation. -/
+theorem repeated_processing_yields_direct_rows (σ : Leaves) (sq0 : SqlState) (h0 : sq0.payload 0 = none) (t : Rel)
+    (fuel : Nat) (hm : t.MultiIter) (hsql : t.SqlSrcOK σ sq0) (hf : t.size ≤ fuel)
+    (runs : List (Res × ProcState)) (s : ProcState) (reg : Nat → Option (List Row)) (T : TreeInv σ reg sq0 t s)
+    (hruns : ProcRuns σ fuel t s runs) :
+    ∀ x, x ∈ runs → (x.1.get t).engine = t.engine ∧ (∀ u, u ∈ (x.1.get t).columns ↔ u ∈ t.columns) ∧
+      ∃ it s'', exec σ (x.1.get t).engine (x.1.get t) x.2.st = .ok (it, s'') ∧ it.rows σ = .ok (sem σ t) :=
+  process_repeatedly σ h0 t fuel hm hsql hf runs s reg T hruns
 
 /-- A statically trivial Transfer gets the destination engine's trivial payload: no hook is called, and the node
 that receives the payload is a NEW Transfer (a fresh allocation id) over the untouched target. -/
@@ -202,7 +213,7 @@ theorem are met, and processing succeeds -/
 private def e2 : Engine := ⟨2, .iter⟩
 private def multiT : Rel := .unary (.sel (.fn .gt [.ref ta, .lit 0] none)) (.transfer 6 e2 matT) [ta]
 example : multiT.MultiIter ∧ multiT.IterOK ∧ multiT.WF ∧ multiT.markersBelow tempBase ∧ multiT.size ≤ defaultFuel := by
-  refine ⟨⟨⟨rfl, Or.inl ⟨rfl, rfl, Or.inl ⟨rfl, ⟨rfl, rfl, rfl⟩⟩⟩⟩, rfl, rfl⟩,
+  refine ⟨⟨⟨rfl, (by decide : e2 ≠ e1), Or.inl ⟨rfl, rfl, Or.inl ⟨rfl, ⟨rfl, rfl, rfl⟩⟩⟩⟩, rfl, rfl⟩,
     ⟨⟨⟨rfl, rfl, rfl⟩, rfl⟩, rfl, rfl⟩, ⟨⟨trivial, rfl, by decide⟩, rfl, by decide⟩, ⟨by decide, by decide, trivial⟩,
     by decide⟩
 example : (match processTop σ1 {} {} multiT with
@@ -216,7 +227,7 @@ private def sqlSrc : Rel := .unary (.sel (.fn .ge [.ref ta, .lit 1] none)) sqlLe
 private def crossT : Rel := .unary (.sel (.fn .gt [.ref ta, .lit 0] none)) (.transfer 8 e1 sqlSrc) [ta]
 private def sqS : SqlState := { payloads := [(3, tablePayload "T" 3 0 [ta])], tables := [σ1 3] }
 example : crossT.MultiIter ∧ crossT.WF ∧ crossT.markersBelow tempBase ∧ crossT.sqFree sqS ∧ sqS.payload 0 = none := by
-  refine ⟨⟨⟨rfl, Or.inr ⟨rfl, rfl, rfl, rfl⟩⟩, rfl, rfl⟩, ⟨⟨trivial, rfl, by decide⟩, rfl, by decide⟩, ⟨by decide, trivial⟩,
+  refine ⟨⟨⟨rfl, (by decide : e1 ≠ e0), Or.inr ⟨rfl, rfl, rfl, rfl⟩⟩, rfl, rfl⟩, ⟨⟨trivial, rfl, by decide⟩, rfl, by decide⟩, ⟨by decide, trivial⟩,
     ⟨rfl, fun h => by cases h⟩, rfl⟩
 example : (match processTop σ1 {} sqS crossT with
     | (.ok res, ps) =>
@@ -225,13 +236,28 @@ example : (match processTop σ1 {} sqS crossT with
        | .error _ => none)
     | _ => none) = some [some 1] := by decide +kernel
 
+/-- a MATERIALIZATION OF A CHAIN whose left branch is statically empty and whose right branch is a leaf (the chain
+is pruned to the leaf, `Materialization.simplify` adds nothing, the leaf's payload is handed to the input's
+Materialization): in the class; processing succeeds without any hook and executing returns the direct rows -/
+private def prunedM : Rel := .mat 11 "pm" (.binary .chain doomed leafP [ta])
+example : prunedM.MultiIter ∧ prunedM.WF ∧ prunedM.markersBelow tempBase := by
+  refine ⟨⟨rfl, Or.inr ⟨⟨rfl, rfl⟩, ⟨rfl, rfl⟩, rfl, trivial⟩⟩, ⟨trivial, trivial, rfl, fun _ => Iff.rfl⟩,
+    ⟨by decide, trivial, trivial⟩⟩
+example : (match processTop σ1 {} {} prunedM with
+    | (.ok res, ps) =>
+      (match exec σ1 e1 (res.get prunedM) ps.st with
+       | .ok (it, _) => ((it.rows σ1).toOption.map (fun rows => rows.map (fun r => r ta)),
+          (ps.st.payload 11).isSome, ps.hooks.length)
+       | .error _ => (none, false, 0))
+    | _ => (none, false, 0)) = (some [some 1], true, 0) := by decide +kernel
+
 /-- a selection over a MATERIALIZATION DIRECTLY AFTER A TRANSFER out of the SQL engine: in the class; processing
 succeeds, the new Materialization and the input's one (id 9) both hold the payload, the input's Transfer (id 8) holds
 none, exactly one hook ran, executing returns the direct rows -/
 private def crossM : Rel :=
   .unary (.sel (.fn .gt [.ref ta, .lit 0] none)) (.mat 9 "mx" (.transfer 8 e1 sqlSrc)) [ta]
 example : crossM.MultiIter ∧ crossM.WF ∧ crossM.markersBelow tempBase ∧ crossM.sqFree sqS := by
-  refine ⟨⟨⟨rfl, Or.inr ⟨⟨rfl, Or.inr ⟨rfl, rfl, rfl, rfl⟩⟩, (by decide : e1 ≠ e0)⟩⟩, rfl, rfl⟩,
+  refine ⟨⟨⟨rfl, Or.inr ⟨rfl, (by decide : e1 ≠ e0), Or.inr ⟨rfl, rfl, rfl, rfl⟩⟩⟩, rfl, rfl⟩,
     ⟨⟨trivial, rfl, by decide⟩, rfl, by decide⟩, ⟨by decide, by decide, trivial⟩, ⟨rfl, rfl, fun h => by cases h⟩⟩
 example : (match processTop σ1 {} sqS crossM with
     | (.ok res, ps) =>
@@ -240,6 +266,18 @@ example : (match processTop σ1 {} sqS crossM with
           (ps.st.payload 9).isSome, (ps.st.payload 8).isSome, ps.hooks.length)
        | .error _ => (none, false, false, 0))
     | _ => (none, false, false, 0)) = (some [some 1], true, false, 1) := by decide +kernel
+
+/-- two `process` calls in a row on `crossM`: the second finds the Materialization's payload, runs NO further hook
+(the log still has one entry), and its result executes to the direct rows -/
+example : (match (processRec σ1 defaultFuel crossM none).run.run { st := {}, sq := sqS } with
+    | (.ok _, s1) =>
+      (match (processRec σ1 defaultFuel crossM none).run.run s1 with
+       | (.ok (res2, _), s2) =>
+         (match exec σ1 e1 (res2.get crossM) s2.st with
+          | .ok (it, _) => ((it.rows σ1).toOption.map (fun rows => rows.map (fun r => r ta)), s2.hooks.length)
+          | .error _ => (none, 0))
+       | _ => (none, 0))
+    | _ => (none, 0)) = (some [some 1], 1) := by decide +kernel
 
 /-- the trees above are acyclic (the hypothesis `Rel.Acyclic` of the theorems) -/
 example : matT.Acyclic ∧ multiT.Acyclic ∧ crossT.Acyclic ∧ crossM.Acyclic := by
